@@ -12,6 +12,7 @@ import (
 	"errors"
 	"fmt"
 	"io"
+	"net"
 	"net/http"
 	"net/http/httptest"
 	"sort"
@@ -36,9 +37,11 @@ func init() {
 		Rule: "(a) sequential: a fresh client.Runtime per case with a tagged consumer registry (subset of 9 lower-case types, with/without '*/*', default media type registered or not) and a scripted response " +
 			"(Content-Type registered / unregistered / absent / empty / malformed / grey, spelled plain, with parameters, OWS, mixed case; 17 status codes; custom reason phrase; header multiset; body of 0 bytes..1 MiB) served by an in-memory RoundTripper (whose body, like net/http's, fails once the request context is done or the body was closed) or a loopback server (1 in 4: the head is flushed first and the body is written once the reader has been entered, a logical event); " +
 			"the ClientResponseReader records the consumer it was handed (by tag), Code/Message/GetHeader/GetHeaders/Body, the Content-Type and Content-Length headers it is shown, and looks every scripted header up under its canonical, lower-case and upper-case name; tagged RoundTrippers and context values tell which client and which context carried the call (operation-level vs Runtime-level; live, cancelled, nil, deadline already expired, deadline hours away; request timeout default / 0 / hours); a share of cases runs with Runtime.Debug on (null logger). Redirect policy: a 302 + Location answer with the operation client stopping/following, the Runtime made with New or NewWithClient (policy stopping/following, consultations counted), and the mirror cases without an operation client. " +
+			"A share of the Runtimes gets Runtime.BasePath assigned after client.New (empty, without a leading slash, rooted) and a caller-supplied response adapter (SetResponseReader) that shows the *http.Response as it is; Runtime.Context 'nil' is really nil. " +
+			"(a2) sequences: 2-3 calls on one or two Runtimes; between the calls consumers are added, replaced (new consumer under an existing key), removed, DefaultMediaType is reassigned (the next response mostly names a media type that was touched, or carries no Content-Type), Runtime.Context is replaced by a new tagged context and the replaced one cancelled, and the same *runtime.ClientOperation value is submitted again to the same or to the other Runtime; every call is judged against what the Runtime it is submitted to holds when it is made (the harness's own record of its assignments). " +
 			"(b) concurrent: N=4..64 goroutines released together on a FRESH Runtime (1-2 calls each, unique token in request header+query and in response header+body), GOMAXPROCS in {1,4,16}, " +
-			"verifhook scheduler (per-goroutine PRNG: nothing / Gosched x k / sleep 10-300us at cl.submit.built, clientReady, beforeDo, afterDo; lock-free, so that it adds no happens-before edges), race detector on. " +
-			"non-trivial: sequential = (registry shape, header kind+spelling+registration, client/context configuration) tuples; concurrent = runs whose first calls overlapped between cl.submit.built and cl.submit.clientReady (from hook timestamps), distinct by the hash of the merged hook trace",
+			"2 in 5 with Runtime.BasePath assigned after client.New, 1 in 8 with Debug on, 1 in 8 with a caller-supplied response adapter, 1 in 4 with ONE operation value submitted by all goroutines; verifhook scheduler (per-goroutine PRNG: nothing / Gosched x k / sleep 10-300us at cl.submit.built, clientReady, beforeDo, afterDo; lock-free, so that it adds no happens-before edges), race detector on. " +
+			"non-trivial: sequential = (registry shape, header kind+spelling+registration, client/context configuration) tuples; sequences = the tuple of their steps' (history, registry change, header feature, client/context configuration); concurrent = runs whose first calls overlapped between cl.submit.built and cl.submit.clientReady (from hook timestamps), distinct by the hash of the merged hook trace",
 		Assumptions: []string{
 			"registry keys and Runtime.DefaultMediaType are lower case without parameters",
 			"a malformed Content-Type (type/subtype part not a token pair) has no media type: the call may fail or use the catch-all consumer, never another consumer; its error must mention the value or the words 'content type'",
@@ -48,6 +51,11 @@ func init() {
 			"header names are case-insensitive (RFC 7230): GetHeader/GetHeaders must find a header under any letter case of its name",
 			"over loopback a Content-Length header, when the reader is shown one, must state the length of the body sent; in memory none is scripted, so none may appear",
 			"race reports are collected by the driver from the race log; they carry no replayable case",
+			"'the consumer registered', 'the default media type' and 'the transport-wide context' are what the Runtime a call is submitted to holds when that call is made (exported fields assigned between calls, never during one); Runtime.Transport/Jar are not changed after a Runtime's first call",
+			"an operation value for which the caller set no client / no context has none, however often and wherever it was submitted before: it is carried by the client and context of the Runtime it is submitted to now",
+			"a *runtime.ClientOperation whose Params writer and Reader are goroutine-safe may be submitted by several goroutines at once (Submit only reads it)",
+			"Runtime.BasePath is an exported field and may be assigned before the first call, with or without a leading slash; the URL that results is not judged here",
+			"a loopback listener that cannot be had (after retries) is a condition of the machine: the case is classed listen-failed and skipped",
 		},
 		MinNontrivial: 100,
 		Run:           run,
@@ -79,6 +87,23 @@ type Call struct {
 type Conc struct {
 	Procs     int   `json:"procs"`
 	SchedSeed int64 `json:"sched_seed"`
+	// SharedOp: every goroutine submits the SAME *runtime.ClientOperation value (its Params writer and Reader find the
+	// goroutine's own token; the operation-level settings are those of Calls[0], which all calls of such a case repeat)
+	SharedOp bool `json:"shared_op,omitempty"`
+}
+
+// Step is one call of a sequential multi-call case (Case.Steps): what is changed before the call, and how it is made.
+type Step struct {
+	Call    int  `json:"call"`               // index into Calls: the response scripted for the call and, for a fresh operation, its operation-level settings
+	Runtime int  `json:"runtime,omitempty"`  // 0: the case's Runtime; 1: a second Runtime made the same way (own tagged transport, context and consumers)
+	ReuseOp bool `json:"reuse_op,omitempty"` // the *runtime.ClientOperation value of the previous step is submitted again (its operation-level settings stay those it was made with)
+	// SetRtCtx: before the call the Runtime.Context of the step's Runtime is replaced by a new context of this kind
+	// (nil | live | cancelled | expired | far) carrying a new tag; the context it replaces is then cancelled
+	SetRtCtx string `json:"set_rt_ctx,omitempty"`
+	// registry changes made on the step's Runtime before the call
+	Add        []string `json:"add,omitempty"` // consumers registered now; a key that exists gets a NEW consumer (new tag)
+	Del        []string `json:"del,omitempty"`
+	SetDefault string   `json:"set_default,omitempty"` // Runtime.DefaultMediaType assigned now
 }
 
 // Case is one fresh Runtime plus the calls made on it.
@@ -91,6 +116,13 @@ type Case struct {
 	TokenBody bool     `json:"token_body,omitempty"` // every response body starts with the token of its own call
 	Calls     []Call   `json:"calls"`
 	Conc      *Conc    `json:"conc,omitempty"`
+	// BasePath: assigned to Runtime.BasePath after client.New ("" = left alone, "<empty>" = the empty string); values without a
+	// leading slash are legal there. Only the race detector and the token checks look at the outcome: URL building is not C13's.
+	BasePath string `json:"base_path,omitempty"`
+	// Adapter: Runtime.SetResponseReader installs a caller-supplied adapter that shows the *http.Response as it is
+	Adapter bool `json:"adapter,omitempty"`
+	// Steps: a sequential case of several calls (Conc is nil then); Calls is the pool the steps point into
+	Steps []Step `json:"steps,omitempty"`
 }
 
 // ---------------------------------------------------------------------------------------------
@@ -360,6 +392,7 @@ type slot struct {
 	body       []byte
 	bodyErr    string
 	hdrTok     string
+	viaAdapter bool // the ClientResponse handed to the reader was made by the caller-supplied adapter
 
 	// caller side
 	result interface{}
@@ -526,7 +559,6 @@ func (t *tcpRT) RoundTrip(req *http.Request) (*http.Response, error) {
 
 // loopback server shared by the worker process: the response is scripted by the token's plan.
 var (
-	srvOnce   sync.Once
 	srv       *httptest.Server
 	srvBase   *http.Transport
 	srvPlans  sync.Map // token -> *srvPlan
@@ -553,9 +585,49 @@ func openGate(token string) {
 
 const gateWatchdog = 20 * time.Second
 
+// listenLoopback gets a loopback listener without ever panicking: a machine that has no free port (or no IPv4 loopback) right
+// now is a harness condition, not an observation about the library. A few retries, then the error.
+func listenLoopback() (net.Listener, error) {
+	var err error
+	for i := 0; i < 4; i++ {
+		var l net.Listener
+		if l, err = net.Listen("tcp", "127.0.0.1:0"); err == nil {
+			return l, nil
+		}
+		if l, err = net.Listen("tcp6", "[::1]:0"); err == nil {
+			return l, nil
+		}
+		time.Sleep(time.Duration(20*(i+1)) * time.Millisecond)
+	}
+	return nil, err
+}
+
+// startServer is httptest.NewServer that returns the listen error instead of panicking.
+func startServer(h http.Handler) (*httptest.Server, error) {
+	l, err := listenLoopback()
+	if err != nil {
+		return nil, err
+	}
+	s := &httptest.Server{Listener: l, Config: &http.Server{Handler: h}}
+	s.Start()
+	return s, nil
+}
+
+var (
+	srvMu       sync.Mutex
+	srvFailures int
+)
+
+// server returns the shared loopback server, or nil when none could be started (tried again by the next loopback case, a few
+// times per worker); the caller classes the case as listen-failed and skips it.
 func server() *httptest.Server {
-	srvOnce.Do(func() {
-		srv = httptest.NewServer(http.HandlerFunc(func(w http.ResponseWriter, r *http.Request) {
+	srvMu.Lock()
+	defer srvMu.Unlock()
+	if srv != nil || srvFailures >= 5 {
+		return srv
+	}
+	func() {
+		started, err := startServer(http.HandlerFunc(func(w http.ResponseWriter, r *http.Request) {
 			tok := r.Header.Get("X-Token")
 			v, ok := srvPlans.Load(tok)
 			if !ok {
@@ -586,8 +658,13 @@ func server() *httptest.Server {
 				_, _ = w.Write([]byte(body))
 			}
 		}))
+		if err != nil {
+			srvFailures++
+			return
+		}
+		srv = started
 		srvBase = &http.Transport{MaxIdleConnsPerHost: 64}
-	})
+	}()
 	return srv
 }
 
@@ -621,21 +698,50 @@ func (x *exec) transport(tag string) http.RoundTripper {
 	return &memRT{tag: tag, x: x}
 }
 
+// tapResp is the caller-supplied response adapter (Runtime.SetResponseReader): it shows the *http.Response as it is.
+type tapResp struct{ res *http.Response }
+
+func (t *tapResp) Code() int                       { return t.res.StatusCode }
+func (t *tapResp) Message() string                 { return t.res.Status }
+func (t *tapResp) GetHeader(name string) string    { return t.res.Header.Get(name) }
+func (t *tapResp) GetHeaders(name string) []string { return t.res.Header.Values(name) }
+func (t *tapResp) Body() io.ReadCloser             { return t.res.Body }
+
 // newRuntime builds the fresh Runtime of a case.
 func (x *exec) newRuntime() *client.Runtime {
+	rt := x.newRuntimeTagged("rt", "")
+	if ctx, cancel := mkCtx(x.c.RtCtx, "rt"); ctx != nil {
+		rt.Context, x.rtCancel = ctx, cancel
+	}
+	return rt
+}
+
+// newRuntimeTagged: the transport carries the tag, every consumer the tag key+suffix; Runtime.Context is nil for the kind
+// "nil" and otherwise left to the caller.
+func (x *exec) newRuntimeTagged(tag, suffix string) *client.Runtime {
 	host := "c13.test"
 	if x.c.TCP {
 		host = server().Listener.Addr().String()
 	}
 	rt := client.New(host, "/", []string{"http"})
-	rt.Transport = x.transport("rt")
+	rt.Transport = x.transport(tag)
 	rt.DefaultMediaType = x.c.DefaultMT
 	rt.Consumers = map[string]runtime.Consumer{}
 	for _, k := range x.c.Registry {
-		rt.Consumers[k] = &taggedConsumer{tag: k}
+		rt.Consumers[k] = &taggedConsumer{tag: k + suffix}
 	}
-	if ctx, cancel := mkCtx(x.c.RtCtx, "rt"); ctx != nil {
-		rt.Context, x.rtCancel = ctx, cancel
+	switch x.c.BasePath {
+	case "":
+	case "<empty>":
+		rt.BasePath = ""
+	default:
+		rt.BasePath = x.c.BasePath
+	}
+	// client.New puts context.Background() there: "no transport-wide context" has to be said explicitly (the caller assigns
+	// the context of every other kind)
+	rt.Context = nil
+	if x.c.Adapter {
+		rt.SetResponseReader(func(res *http.Response) runtime.ClientResponse { return &tapResp{res: res} })
 	}
 	if x.c.Debug {
 		rt.SetLogger(nullLogger{})
@@ -644,11 +750,24 @@ func (x *exec) newRuntime() *client.Runtime {
 	return rt
 }
 
-func (x *exec) operation(call *Call, s *slot) *runtime.ClientOperation {
-	names := map[string]bool{}
-	for _, kv := range call.Headers {
-		names[kv[0]] = true
+// opBox is what the closures of an operation look at: the slot and the scripted call of the submission that is under way
+// (an operation value can be submitted more than once, and by several goroutines).
+type opBox struct {
+	made *Call // the call the operation was made for: its operation-level settings (client, context, timeout)
+	s    *slot
+	call *Call
+	by   func() (*slot, *Call) // set for an operation shared by goroutines: finds the calling goroutine's submission
+}
+
+func (b *opBox) cur() (*slot, *Call) {
+	if b.by != nil {
+		return b.by()
 	}
+	return b.s, b.call
+}
+
+func (x *exec) operation(call *Call, s *slot) (*runtime.ClientOperation, *opBox) {
+	box := &opBox{made: call, s: s, call: call}
 	op := &runtime.ClientOperation{
 		ID:                 "c13",
 		Method:             http.MethodGet,
@@ -657,10 +776,14 @@ func (x *exec) operation(call *Call, s *slot) *runtime.ClientOperation {
 		ConsumesMediaTypes: []string{"application/json"},
 		Schemes:            []string{"http"},
 		Params: runtime.ClientRequestWriterFunc(func(req runtime.ClientRequest, _ strfmt.Registry) error {
+			s, _ := box.cur()
+			if s == nil {
+				return errors.New("c13: submission without a slot")
+			}
 			if err := req.SetHeaderParam("X-Token", s.token); err != nil {
 				return err
 			}
-			switch call.Timeout {
+			switch box.made.Timeout {
 			case "zero":
 				if err := req.SetTimeout(0); err != nil {
 					return err
@@ -673,7 +796,16 @@ func (x *exec) operation(call *Call, s *slot) *runtime.ClientOperation {
 			return req.SetQueryParam("token", s.token)
 		}),
 		Reader: runtime.ClientResponseReaderFunc(func(resp runtime.ClientResponse, cons runtime.Consumer) (interface{}, error) {
+			s, call := box.cur()
+			if s == nil {
+				return nil, errors.New("c13: submission without a slot")
+			}
+			names := map[string]bool{}
+			for _, kv := range call.Headers {
+				names[kv[0]] = true
+			}
 			s.readerRuns++
+			_, s.viaAdapter = resp.(*tapResp)
 			if x.c.TCP && call.Flush {
 				openGate(s.token)
 			}
@@ -718,11 +850,16 @@ func (x *exec) operation(call *Call, s *slot) *runtime.ClientOperation {
 	if ctx, cancel := mkCtx(call.OpCtx, "op"); ctx != nil {
 		op.Context, s.cancel = ctx, cancel
 	}
-	return op
+	return op, box
 }
 
 func (x *exec) submit(rt *client.Runtime, call *Call, s *slot) {
-	op := x.operation(call, s)
+	op, _ := x.operation(call, s)
+	x.submitOp(rt, op, call, s)
+}
+
+// submitOp submits an operation value that exists already for the call.
+func (x *exec) submitOp(rt *client.Runtime, op *runtime.ClientOperation, call *Call, s *slot) {
 	pv, st := mon.Catch(func() { s.result, s.err = rt.Submit(op) })
 	if x.c.TCP && call.Flush {
 		openGate(s.token) // never leave a handler waiting
@@ -749,22 +886,31 @@ func tokenOf(nonce int64, i, k int) string {
 func prepare(c *Case) *exec {
 	caseCounter++
 	x := &exec{c: c, nonce: caseCounter, plans: map[string]*plan{}, slots: map[string]*slot{}}
-	for i := range c.Calls {
-		for k := 0; k < rounds(&c.Calls[i]); k++ {
-			tok := tokenOf(x.nonce, i, k)
-			x.plans[tok] = &plan{call: &c.Calls[i], tcp: c.TCP}
-			x.slots[tok] = &slot{token: tok}
-			if c.TCP {
-				sp := &srvPlan{call: &c.Calls[i], body: bodyOf(c, &c.Calls[i], tok), gate: make(chan struct{})}
-				if c.Debug {
-					sp.open() // with Debug on the Runtime dumps (reads) the whole response before the reader is entered
-				}
-				srvPlans.Store(tok, sp)
+	add := func(i, k int, call *Call) {
+		tok := tokenOf(x.nonce, i, k)
+		x.plans[tok] = &plan{call: call, tcp: c.TCP}
+		x.slots[tok] = &slot{token: tok}
+		if c.TCP {
+			sp := &srvPlan{call: call, body: bodyOf(c, call, tok), gate: make(chan struct{})}
+			if c.Debug {
+				sp.open() // with Debug on the Runtime dumps (reads) the whole response before the reader is entered
 			}
+			srvPlans.Store(tok, sp)
 		}
 	}
-	if c.TCP {
-		server()
+	if len(c.Steps) > 0 {
+		// one slot per step; the step's call scripts the response
+		for i, st := range c.Steps {
+			if st.Call >= 0 && st.Call < len(c.Calls) {
+				add(i, 0, &c.Calls[st.Call])
+			}
+		}
+		return x
+	}
+	for i := range c.Calls {
+		for k := 0; k < rounds(&c.Calls[i]); k++ {
+			add(i, k, &c.Calls[i])
+		}
 	}
 	return x
 }
@@ -803,7 +949,19 @@ func sameList(a, b []string) bool {
 	return true
 }
 
-func judgeCall(c *Case, call *Call, s *slot) []finding {
+// judgeX tells the oracle about a call that is not the only one of a fresh Runtime (multi-call sequential cases): the tags
+// that stand for "the transport-wide client / context / consumers of the Runtime the call was submitted to, as they are now".
+type judgeX struct {
+	rtTag    string              // tag of that Runtime's transport
+	rtCtxTag string              // tag carried by that Runtime's context now
+	consTag  func(string) string // registry key -> tag of the consumer registered under it now
+	history  string              // what preceded the call, appended to the client/context signatures
+	regHist  string              // registry changes that preceded the call, appended to the header feature class
+}
+
+func judgeCall(c *Case, call *Call, s *slot) []finding { return judgeCallX(c, call, s, nil) }
+
+func judgeCallX(c *Case, call *Call, s *slot, jx *judgeX) []finding {
 	var fs []finding
 	add := func(sig, format string, args ...interface{}) {
 		fs = append(fs, finding{sig, fmt.Sprintf(format, args...)})
@@ -814,6 +972,13 @@ func judgeCall(c *Case, call *Call, s *slot) []finding {
 	}
 	// which client and which context must have carried the call
 	wantRT, wantCtx, gov := "rt", "none", c.RtCtx
+	rtCtxTag, hist := "rt", ""
+	if jx != nil {
+		wantRT, rtCtxTag = jx.rtTag, jx.rtCtxTag
+		if jx.history != "" {
+			hist = "/" + jx.history
+		}
+	}
 	if call.OpClient {
 		wantRT = "op"
 	}
@@ -821,22 +986,22 @@ func judgeCall(c *Case, call *Call, s *slot) []finding {
 	case call.OpCtx != "":
 		wantCtx, gov = "op", call.OpCtx
 	case c.RtCtx != "nil" && c.RtCtx != "":
-		wantCtx = "rt"
+		wantCtx = rtCtxTag
 	}
 	if s.rtCalls > 0 {
 		if s.rtTag != wantRT {
 			if call.OpClient {
-				add("op-client-ignored", "the operation carries its own http.Client but the request went through the %q transport", s.rtTag)
+				add("op-client-ignored"+hist, "the operation carries its own http.Client but the request went through the %q transport", s.rtTag)
 			} else {
-				add("runtime-client-bypassed", "the operation has no client of its own but the request went through the %q transport", s.rtTag)
+				add("runtime-client-bypassed"+hist, "the operation has no client of its own but the request went through the %q transport, not the %q transport of the Runtime it was submitted to", s.rtTag, wantRT)
 			}
 		}
 		if s.ctxTag != wantCtx {
 			switch {
 			case call.OpCtx != "":
-				add("op-context-ignored", "the operation carries its own context but the request context held %q (Runtime.Context %s)", s.ctxTag, c.RtCtx)
+				add("op-context-ignored"+hist, "the operation carries its own context but the request context held %q (Runtime.Context %s)", s.ctxTag, c.RtCtx)
 			default:
-				add("runtime-context-ignored", "request context held %q, expected %q (Runtime.Context %s, no operation context)", s.ctxTag, wantCtx, c.RtCtx)
+				add("runtime-context-ignored"+hist, "request context held %q, expected %q (Runtime.Context %s, no operation context)", s.ctxTag, wantCtx, c.RtCtx)
 			}
 		}
 		if s.reqTok != s.token {
@@ -852,7 +1017,7 @@ func judgeCall(c *Case, call *Call, s *slot) []finding {
 			if call.OpCtx != "" {
 				which = "op"
 			}
-			add(gov+"-"+which+"-context-ignored", "the governing context is %s, yet err=%v, reader runs=%d (request context held %q)", gov, s.err, s.readerRuns, s.ctxTag)
+			add(gov+"-"+which+"-context-ignored"+hist, "the governing context is %s, yet err=%v, reader runs=%d (request context held %q)", gov, s.err, s.readerRuns, s.ctxTag)
 		}
 		return fs
 	}
@@ -867,6 +1032,16 @@ func judgeCall(c *Case, call *Call, s *slot) []finding {
 		return fs
 	}
 	w := expectFor(c, call)
+	if jx != nil {
+		if jx.regHist != "" {
+			w.feature += "+" + jx.regHist
+		}
+		if jx.consTag != nil {
+			for i, k := range w.allowed {
+				w.allowed[i] = jx.consTag(k)
+			}
+		}
+	}
 	ctText := "<absent>"
 	if call.HasCT {
 		ctText = strconv.Quote(string(call.CT))
@@ -1006,8 +1181,17 @@ func runCase(m *mon.M, c *Case) {
 	if len(c.Calls) == 0 {
 		return
 	}
+	if c.TCP && server() == nil {
+		// no loopback listener could be had (after retries): a condition of the machine; nothing was observed
+		m.Class("listen-failed")
+		return
+	}
 	x := prepare(c)
 	defer x.release()
+	if len(c.Steps) > 0 && c.Conc == nil {
+		runSteps(m, c, x)
+		return
+	}
 	rt := x.newRuntime()
 	if c.Conc == nil {
 		call := &c.Calls[0]
@@ -1030,6 +1214,18 @@ func runCase(m *mon.M, c *Case) {
 		}
 		if call.Flush {
 			m.Class("seq:head-flushed-first")
+		}
+		if c.BasePath != "" {
+			fp = append(fp, "base-path:"+basePathClass(c.BasePath))
+			m.Class("seq:base-path-assigned:" + basePathClass(c.BasePath))
+		}
+		if c.Adapter {
+			fp = append(fp, "adapter")
+			if s.readerRuns > 0 && s.viaAdapter {
+				m.Class("seq:reader-saw-the-response-through-the-caller's-adapter")
+			} else if s.readerRuns > 0 {
+				m.Class("seq:caller's-adapter-not-used") // not judged: the statement is about what the reader sees, not through what
+			}
 		}
 		m.NT(strings.Join(fp, "|"))
 		m.Class("seq-contexts:op=" + orNone(call.OpCtx) + ",rt=" + c.RtCtx)
